@@ -74,8 +74,10 @@ CHECKS = {
               "part='diagonal', and swept table tolerances are compared with each other and with the oracle; inapplicable options must leave the generated code unchanged."),
         design="DESIGN.md §6 C10"),
     "C11": dict(
-        technique="Lean 4 proof (tensor-product rule moments, vertex scheme, grouping) + exact rational closed forms + per-integral-rule oracle",
-        text=("tensor_rule_exact(3/_upto), moment_linear, vertex_rule_exact1, group_partition are proved; degree-q kernels are compared on random affine cells with exact rational monomial integrals "
+        technique="Lean 4 proof (Lean transcription of the rule-selection and grouping pipeline with honoured-degree/scheme/entity/partition theorems over all groups; tensor-product rule moments, vertex scheme) + model/implementation correspondence + exact rational closed forms + per-integral-rule oracle",
+        text=("explicit_degree_honoured, default_degree_is_estimate, scheme_honoured, custom_only_from_own_elements, custom_overrides, vertex_scheme_entity, rule_lives_on_entity(_prism), grouping_partition / grouping_perm / summed_sum, selection_independent_of_order "
+              "are proved for the Lean transcription of _analyze_form's metadata logic and _group_integrands_by_quadrature_rule, which is compared with the real functions on seeded forms (all cells, dx/ds/dS/dP/dr, metadata, quadrature elements, sum factorisation; every rule array "
+              "re-derived from an independent Basix call or the vertex closed form); tensor_rule_exact(3/_upto), moment_linear, vertex_rule_exact1, group_partition are proved; degree-q kernels are compared on random affine cells with exact rational monomial integrals "
               "(quick: 10 degrees up to 15, thorough 0..30); forms with several rules on one subdomain are compared with per-integral quadrature; default degree vs high degree."),
         design="DESIGN.md §6 C11"),
     "C12": dict(
